@@ -1,8 +1,11 @@
 package main
 
 import (
+	"encoding/hex"
+	"encoding/json"
 	"errors"
 	"fmt"
+	"unicode/utf8"
 
 	riverrors "rivaas.dev/errors"
 	"rivaas.dev/validation"
@@ -13,18 +16,59 @@ import (
 // ErrorType / ErrorCode / ErrorDetails (with or without Unwrap) | validation.Error | validation.FieldError.
 type errT struct {
 	Kind   string // new wrap join status typed valerr valerrptr fielderr
-	Msg    string `json:",omitempty"`
+	Msg    bstr   `json:",omitempty"`
 	Kids   []errT `json:",omitempty"` // join
 	Inner  *errT  `json:",omitempty"` // wrap, status (nil allowed), typed (nil = no Unwrap method)
 	Status int    `json:",omitempty"` // status
 	HasSt  bool   `json:",omitempty"` // typed
 	St     int    `json:",omitempty"`
 	HasCo  bool   `json:",omitempty"`
-	Code   string `json:",omitempty"`
+	Code   bstr   `json:",omitempty"`
 	HasDe  bool   `json:",omitempty"`
 	Det    string `json:",omitempty"` // typed: JSON text of what Details() returns
 	Fields []fldT `json:",omitempty"` // valerr
 	Trunc  bool   `json:",omitempty"`
+}
+
+// bstr is a Go string that may hold any bytes (control bytes, invalid UTF-8). In the JSON comment of a case
+// line it travels as a plain string when it is valid UTF-8 and as {"x": hex} otherwise, so that replay
+// rebuilds exactly the same bytes (encoding/json would replace invalid bytes by U+FFFD).
+type bstr string
+
+func (b bstr) MarshalJSON() ([]byte, error) {
+	if utf8.ValidString(string(b)) {
+		return json.Marshal(string(b))
+	}
+	return json.Marshal(map[string]string{"x": hex.EncodeToString([]byte(b))})
+}
+
+func (b *bstr) UnmarshalJSON(data []byte) error {
+	var s string
+	if err := json.Unmarshal(data, &s); err == nil {
+		*b = bstr(s)
+		return nil
+	}
+	var m map[string]string
+	if err := json.Unmarshal(data, &m); err != nil {
+		return err
+	}
+	raw, err := hex.DecodeString(m["x"])
+	*b = bstr(raw)
+	return err
+}
+
+// jt is a string as encoding/json transports it: marshalled and read back (invalid UTF-8 becomes U+FFFD;
+// everything else, control bytes and U+2028 included, survives). encoding/json is a parameter of the model.
+func jt(s string) string {
+	b, err := json.Marshal(s)
+	if err != nil {
+		panic(err)
+	}
+	var out string
+	if err := json.Unmarshal(b, &out); err != nil {
+		panic(err)
+	}
+	return out
 }
 
 type fldT struct {
@@ -95,7 +139,7 @@ var (
 )
 
 func mkTyped(e errT) error {
-	b := base{msg: e.Msg, st: e.St, code: e.Code}
+	b := base{msg: string(e.Msg), st: e.St, code: string(e.Code)}
 	if e.HasDe {
 		b.det = decodeJSON(e.Det)
 	}
@@ -166,9 +210,9 @@ func (e errT) valErr() validation.Error {
 func (e errT) build() error {
 	switch e.Kind {
 	case "new":
-		return errors.New(e.Msg)
+		return errors.New(string(e.Msg))
 	case "wrap":
-		return fmt.Errorf("%s: %w", e.Msg, e.Inner.build())
+		return fmt.Errorf("%s: %w", string(e.Msg), e.Inner.build())
 	case "join":
 		es := make([]error, len(e.Kids))
 		for i, k := range e.Kids {
